@@ -1,6 +1,7 @@
 import Mrpro.Model.CG
 import Mrpro.Lemmas.CGL
 import Mrpro.Lemmas.CGKrylovL
+import Mrpro.Lemmas.CGFiniteL
 /-! # C06 — conjugate gradient
 
 `cgRun` is the line-by-line model of `mrpro.algorithms.optimizers.cg` (generic in the vector type).
@@ -104,5 +105,13 @@ theorem cg_krylov_residual (h : HPD B H) (b : V) (x0 : Option V) (maxIter : Nat)
     tr[k].r ∈ M.Kry H (b - H (start b x0)) (k + 2) ∧
       ∀ w ∈ M.Kry H (b - H (start b x0)) (k + 1), B tr[k].r w = 0 :=
   M.cg_krylov_residual B H h.selfadj h.posH b x0 maxIter tol2 x reason tr hrun k hk
+
+/-- **finite termination**: in a space of dimension n, `cg` with tolerance 0 and a budget of at least n iterations returns the
+exact solution, and never reports more than n iterates (the residuals it continues past are non-zero and mutually orthogonal) -/
+theorem cg_finite_termination [Module.Finite K V] (h : HPD B H) (b : V) (x0 : Option V) (maxIter : Nat)
+    (hn : Module.finrank K V ≤ maxIter) (x : V) (reason : String) (tr : List (CGTrace V))
+    (hrun : cgRun (modOps B) (fun v => H v) b x0 maxIter none = .ok x reason tr) :
+    H x = b ∧ tr.length ≤ Module.finrank K V :=
+  M.cg_finite_termination B H h.symm h.posB h.selfadj h.posH b x0 maxIter hn x reason tr hrun
 
 end C06
